@@ -32,6 +32,8 @@ u64 _ZNKSt7__cxx1112basic_stringIcSt11char_traitsIcESaIcEE6lengthEv(u8* s) { ret
 u8 _ZNKSt7__cxx1112basic_stringIcSt11char_traitsIcESaIcEE5emptyEv(u8* s) { return GS(s)->len == 0; }
 /* searching and slicing (ghost strings alias their source, so a substring is a sub-range) */
 u64 _ZNKSt7__cxx1112basic_stringIcSt11char_traitsIcESaIcEE4findEcm(u8* s, u8 c, u64 pos) { for (u64 i = pos; i < GS(s)->len; i++) if (GS(s)->p[i] == c) return i; return ~(u64)0; }
+u64 _ZNKSt7__cxx1112basic_stringIcSt11char_traitsIcESaIcEE5rfindEcm(u8* s, u8 c, u64 pos) { u64 r = ~(u64)0; for (u64 i = 0; i < GS(s)->len; i++) if ((pos == ~(u64)0 || i <= pos) && GS(s)->p[i] == c) r = i; return r; }
+u64 _ZNKSt7__cxx1112basic_stringIcSt11char_traitsIcESaIcEE12find_last_ofEcm(u8* s, u8 c, u64 pos) { return _ZNKSt7__cxx1112basic_stringIcSt11char_traitsIcESaIcEE5rfindEcm(s, c, pos); }
 u64 _ZNKSt7__cxx1112basic_stringIcSt11char_traitsIcESaIcEE13find_first_ofEcm(u8* s, u8 c, u64 pos) { for (u64 i = pos; i < GS(s)->len; i++) if (GS(s)->p[i] == c) return i; return ~(u64)0; }
 void _ZNKSt7__cxx1112basic_stringIcSt11char_traitsIcESaIcEE6substrEmm(u8* ret, u8* s, u64 pos, u64 n) {
   if (pos > GS(s)->len) { _ZSt24__throw_out_of_range_fmtPKcz(0); return; }
